@@ -154,5 +154,20 @@ CHECKS["C09"] = {
             "references to collected owner/object are dead and later changes neither raise nor call.",
     "note": "main-thread dispatch; 3-object pool, 2 handlers; depth 3/4",
 }
+CHECKS["C12"] = {
+    "category": "model_checking",
+    "technique": MC + " (history BFS with dedup on graph+values+cache contents+notifier fingerprint; independent recomputation as oracle)",
+    "text": "Seven observed properties (cached and uncached, scalar, Instance link, list/dict/set items, nested "
+            "path, a subclass overriding an inherited plain getter with a cached one) on a pool of 3 objects; every "
+            "history up to depth 3 (4 thorough) over ~55 events: dependency mutations incl. duplicates/sharing/"
+            "whole-list assignment with duplicates, scalar changes on every object, explicit cache-filling reads, "
+            "static handlers that read cached properties, and pickle / deepcopy / clone_traits of the pool at any "
+            "point. At the end of every history each property is read twice: first read must equal an independent "
+            "recomputation, second must not run a cached getter again, a getter never runs twice for one read; a "
+            "last step that alters a recomputed value must reach the on_trait_change and the observe handler with "
+            "new equal to the recomputed value.",
+    "note": "Property(observe=...) only; depth 3/4; intermediate steps deliberately do not read, so caches filled "
+            "by explicit read events can go stale if invalidation is missed",
+}
 
 NOT_CLAIMED = {}
